@@ -253,6 +253,14 @@ func TestVfC12Edns(t *testing.T) {
 					clientOpts = true
 				}
 				m.Ar = append(m.Ar, o)
+				// (the OPT is not always the only or the last additional record of a query)
+				other := vfkit.RR{Owner: vfkit.Name{[]byte("key")}, Type: 65281, Class: 255, RData: []vfkit.RDPart{{Raw: []byte{1, 2, 3, 4}}}}
+				switch rapid.IntRange(0, 5).Draw(t, "optCompany") {
+				case 0:
+					m.Ar = append(m.Ar, other)
+				case 1:
+					m.Ar = append([]vfkit.RR{other}, m.Ar...)
+				}
 			}
 			return EncodeMsg(m)
 		}
